@@ -112,23 +112,20 @@ def gen_cases(ctx):
         cg = lv >= 4
         add(b"" if cg else rand_secret(rng), cg, lv, shipped if rng.random() < 0.5 else simple, False, tr, p, "dual")
         cases[-1]["dual"] = d
-    # 4. port-range boundaries: secrets whose first port draw is the largest value of the range (port max-1),
-    #    searched with the Python HKDF, so that a range changed on one side is exhibited and not only a shifted minimum
-    import hashlib
-    import hmac as hm_
-    zero = bytes(32)
-    for span, trs in ((65535 - 1024, ["min", "prefix", "dtls"]), (65535 - 22, ["obfs4"])):
-        want = (span - 1).to_bytes(2, "big")
-        for i in range(400000):
-            sec = rng.getrandbits(256).to_bytes(32, "big")
-            prk = hm_.new(b"conjure" * 4, sec, hashlib.sha256).digest()
-            sd = hm_.new(prk, b"\x01", hashlib.sha256).digest()[:16]
-            prk2 = hm_.new(zero, sd, hashlib.sha256).digest()
-            if hm_.new(prk2, b"phantom-select-dst-port\x01", hashlib.sha256).digest()[:2] == want:
-                for tr in trs:
-                    add(sec, False, 4, simple, False, tr, {"kind": "explicit", "rand": True, "prefix": 3 if tr == "prefix" else None},
-                        "port-top")
-                break
+    # 4. port-range boundaries (corpus/C01/port_boundary.json, found offline): secrets whose first 16-bit draw of the
+    #    port selector is max-min-1 (accepted: port 65534), max-min and max-min+1 (the published algorithm rejects both
+    #    and draws again), for each transport's range and for library versions 3 and 4
+    import json
+    from lib import VERIF
+    pb_path = os.path.join(VERIF, "corpus", "C01", "port_boundary.json")
+    for e in json.load(open(pb_path))["port_boundary"] if os.path.exists(pb_path) else []:
+        for tr in e["transports"]:
+            if quick and tr == "dtls" and e["lv"] == 3:
+                continue
+            add(bytes.fromhex(e["secret"]), False, e["lv"], simple, False, tr,
+                {"kind": "explicit", "rand": True, "prefix": 3 if tr == "prefix" else None},
+                "port-top" if e["first_draw"] == e["span"] - 1 else "port-reject")
+            cases[-1]["expect_port"] = 65534 if e["first_draw"] == e["span"] - 1 else None
     found = 0
     for i in range(200000):
         sec = bytes(rng.getrandbits(8) for _ in range(32))
@@ -139,6 +136,15 @@ def gen_cases(ctx):
             found += 1
             if found >= (2 if quick else 8):
                 break
+    # 6. legacy (libver 0/1) and current derivations from concurrent station workers on ONE registration manager:
+    #    "for any registration" includes registrations ingested at the same time
+    items = []
+    for k in range(16):
+        items.append({"secret": rand_secret(rng) if k % 4 else bytes(rng.getrandbits(8) for _ in range(32)),
+                      "lv": [0, 1, 1, 0, 4, 1, 0, 2][k % 8], "v6": bool(k & 1)})
+    cases.append({"conc": {"workers": 8 if quick else 32, "rounds": 40 if quick else 400, "items": items}, "secret": b"",
+                  "client_gen": False, "lv": 1, "cfg": shipped, "v6": False, "transport": "min",
+                  "params": {"kind": "absent", "rand": None, "prefix": None}, "tag": "conc"})
     return cases
 
 
@@ -147,6 +153,9 @@ def to_json(c):
          "v6": c["v6"], "transport": c["transport"], "params": c["params"]}
     if c.get("dual"):
         d["dual"] = c["dual"]
+    if c.get("conc"):
+        d["conc"] = {"workers": c["conc"]["workers"], "rounds": c["conc"]["rounds"],
+                     "items": [{"secret": it["secret"].hex(), "lv": it["lv"], "v6": it["v6"]} for it in c["conc"]["items"]]}
     return d
 
 
@@ -260,6 +269,9 @@ def oracle(ctx, c, r):
                  "choice %d, subnet allows randomisation: %s, wire params %s)" % (st["port"], cport, cl["port"], flag, cl["wire"]),
                  brief(c, r))
         return "diff"
+    if lv >= 3 and flag and st["port"] >= 65535:
+        ctx.fail("port-range/max-exclusive/%s" % c["transport"], "port %d: the range of a randomised port is [min, 65535), the "
+                 "released clients never derive 65535 (they reject that draw and draw again)" % st["port"], brief(c, r))
     if c.get("tag") == "port-top" and st["port"] != 65534:
         ctx.fail("port-top/%s" % c["transport"], "the secret's first port draw is the largest of the transport's range, "
                  "expected port 65534, station chose %d" % st["port"], brief(c, r))
@@ -350,6 +362,14 @@ def run(ctx):
     terms = []
     tcases = []
     for c, r in zip(cases, res):
+        if c.get("conc"):
+            ctx.count(("conc", r.get("conc_runs")), nontrivial=True, kind="conc/station")
+            if r.get("conc_diffs"):
+                legacy = "libver 0" in r["conc_diff"] or "libver 1" in r["conc_diff"]
+                ctx.fail("concurrent-station-differs-from-serial/%s" % ("libver<2" if legacy else "libver>=2"),
+                         "%d of %d registrations built by concurrent station workers differ from the serial derivation (which is "
+                         "what the client computes); first: %s" % (r["conc_diffs"], r["conc_runs"], r["conc_diff"]), brief(c))
+            continue
         if c.get("dual"):
             dual_check(ctx, c, r, terms, tcases)
         verdict = oracle(ctx, c, r)
@@ -365,7 +385,7 @@ def run(ctx):
                     "client": {k: r["client"][k] for k in ("ip", "port", "tag", "seed", "wire")}})
     need = ["%s/lv%d/agree" % (t, lv) for t in ("min", "obfs4", "dtls") for lv in range(5)]
     need += ["prefix/lv3/agree", "prefix/lv4/agree", "prefix/lv1/station-err", "min/lv0/legacy-divergence/varint-overflow",
-             "tag:varint-overflow/agree", "tag:legacy-nil-group/agree", "tag:port-top/agree", "dual/obfs4/2-regs",
+             "tag:varint-overflow/agree", "tag:legacy-nil-group/agree", "tag:port-top/agree", "tag:port-reject/agree", "conc/station", "dual/obfs4/2-regs",
              "dual/min/2-regs", "dual/prefix/2-regs", "dual/dtls/2-regs", "dual/obfs4/1-regs"]
     need += ["params:%s/%s" % (t, k) for t in TRS for k in ("absent", "default", "explicit")]
     ctx.require_kinds(need)
